@@ -333,22 +333,38 @@ class Recorder(object):
         raise core.TieBroken('instrumentation point %s.%s is gone' % (cls.__name__, name))
     for name in ('_summary_source_table', '_summary_helper_col_id', '_summary_simple'):
       pass
+    if not hasattr(engine.Engine, '_recompute_one_cell'):
+      raise core.TieBroken('instrumentation point Engine._recompute_one_cell is gone')
     self.calls = []
+    self.evals = []          # (index of the round, source table id, helper col id, row id)
     self.on = False
     rec = self
     self.orig = engine.Engine._bring_all_up_to_date
+    self.orig_cell = engine.Engine._recompute_one_cell
 
     def _bring_all_up_to_date(eng):
       if rec.on:
         try:
           rec.calls.append(rec.presnap(eng))
-        except Exception:
+        except core.TieBroken:
+          raise
+        except Exception:      # pylint: disable=broad-except
           rec.calls.append({'error': traceback.format_exc()[-600:]})
       return rec.orig(eng)
+
+    def _recompute_one_cell(eng, table, col, row_id, *args, **kwargs):
+      if rec.on and col.col_id.startswith('#summary#'):
+        rec.evals.append((len(rec.calls) - 1, table.table_id, col.col_id, row_id))
+      return rec.orig_cell(eng, table, col, row_id, *args, **kwargs)
     engine.Engine._bring_all_up_to_date = _bring_all_up_to_date
+    engine.Engine._recompute_one_cell = _recompute_one_cell
 
   def uninstall(self):
     self.engine.Engine._bring_all_up_to_date = self.orig
+    self.engine.Engine._recompute_one_cell = self.orig_cell
+
+  def begin(self):
+    self.calls, self.evals, self.on = [], [], True
 
   def summary_tables(self, eng):
     """Engine-side view: {summary table id: (source table id, group-by col ids, kinds)} exactly as
@@ -392,6 +408,11 @@ class Recorder(object):
       if mapping is None or not hasattr(mapping, '_col_ids_tuple') or not hasattr(mapping, 'get_mapped_keys'):
         raise core.TieBroken('LookupMapColumn._mapping._col_ids_tuple/get_mapped_keys is gone')
       if tuple(self.lookup.extract_column_id(c) for c in mapping._col_ids_tuple) != (helper,):
+        continue
+      # getSummarySourceGroup looks the record up directly in simple mode and with CONTAINS in list mode:
+      # two different lookup maps
+      contains = isinstance(mapping._col_ids_tuple[0], self.lookup._Contains)
+      if contains == bool(eng.tables[sid]._summary_simple):
         continue
       for rid in s.row_ids:
         ids = set()
@@ -500,10 +521,8 @@ def conv_key(colobj, v, lookup_mod):
 
 def classify(kind, v, colobj, intern, lookup_mod):
   """Model cell for the rich value `v` the helper formula reads from a group-by column of the given kind."""
-  if isinstance(v, KeyError):
-    raise SkipCase('source-column-missing')
-  if isinstance(v, CellError):
-    return ('E',)
+  if isinstance(v, (KeyError, CellError)):
+    return ('E',)          # getattr(rec, col) raises: no such column in the source table, or an error value
   if kind == 'S':
     if isinstance(v, tuple):
       raise SkipCase('tuple-in-scalar-column')      # domain of the known finding C12-tuple-key
@@ -561,21 +580,51 @@ def cell_lit(c):
 KIND_LIT = {'S': 'KScalar', 'C': 'KChoiceList', 'R': 'KRefList'}
 
 
-def case_lit(kinds, prev, src, summ, expect):
+def case_lit(kinds, dirties, prev, src, summ, expect):
   """((kinds, helper lookup entries, src rows, summary rows before settle), summary rows after settle with groups)"""
   p = core.coq_list(['(%s, %s)' % (core.zlit(rid), core.zlist(ids)) for rid, ids in prev])
+  d = core.coq_list([core.zlist(x) for x in dirties])
   k = core.coq_list([KIND_LIT[x] for x in kinds])
   s = core.coq_list(['(%s, %s)' % (core.zlit(rid), core.coq_list([cell_lit(c) for c in cells])) for rid, cells in src])
   m = core.coq_list(['(%s, %s)' % (core.zlit(rid), core.coq_list([atom_lit(a) for a in key])) for rid, key in summ])
   x = core.coq_list(['(%s, %s, %s)' % (core.zlit(rid), core.coq_list([atom_lit(a) for a in key]), core.zlist(g))
                      for rid, key, g in expect])
-  return '((%s, %s, %s, %s), %s)' % (k, p, s, m, x)
+  return '((%s, %s, %s, %s, %s), %s)' % (k, d, p, s, m, x)
 
 
 # ------------------------------------------------------------------------------------------------
 # Running histories
 
-def build_case(pre, post, lookup_mod):
+def dirty_sets(ncalls, evals, sid, src_id):
+  """Per round of the settle loop: the sorted source row ids whose helper cell for `sid` was evaluated."""
+  out = [set() for _ in range(ncalls)]
+  for (rnd, tid, cid, rid) in evals:
+    if rnd >= 0 and tid == src_id and cid == '#summary#' + sid:
+      out[rnd].add(rid)
+  return [sorted(x) for x in out]
+
+
+def cases_of_step(st, lookup_mod):
+  """[(summary table id, case tuple | None, skip reason | None)] for one successful bundle."""
+  out = []
+  if st['failed'] or not st['calls'] or st['post'] is None:
+    return out
+  pre = st['calls'][0]
+  if 'error' in pre:
+    raise core.TieBroken('snapshot before the settle loop failed: ' + pre['error'])
+  for sid, post in sorted(st['post'].items()):
+    if sid not in pre:
+      out.append((sid, None, 'table-appeared-during-settle'))
+      continue
+    try:
+      d = dirty_sets(len(st['calls']), st['evals'], sid, post['src'])
+      out.append((sid, build_case(pre[sid], post, lookup_mod, d), None))
+    except SkipCase as ex:
+      out.append((sid, None, ex.args[0]))
+  return out
+
+
+def build_case(pre, post, lookup_mod, dirties=None):
   """Model input and expected output for one summary table and one bundle.  Raises SkipCase."""
   if pre['gcols'] != post['gcols'] or pre['kinds'] != post['kinds'] or pre['src'] != post['src']:
     raise SkipCase('group-by-changed-during-settle')
@@ -595,7 +644,9 @@ def build_case(pre, post, lookup_mod):
       raise SkipCase('group-cell-not-a-list')
     expect.append((rid, keyatoms(key), g))
   prev = sorted((rid, ids) for rid, ids in pre.get('prev', {}).items())
-  return kinds, prev, src, summ, expect
+  if dirties is None:
+    dirties = [[rid for rid, _ in src]] * 2
+  return kinds, dirties, prev, src, summ, expect
 
 
 def run_history(seed, nb, direct=False, rec=None, undo_rate=0.15):
@@ -618,7 +669,7 @@ def run_history(seed, nb, direct=False, rec=None, undo_rate=0.15):
     is_undo = bundle[0][0] == 'ApplyUndoActions'
     last_undo = None
     if rec is not None:
-      rec.calls, rec.on = [], True
+      rec.begin()
     try:
       out = g.apply(e, bundle)
       failed = None
@@ -637,5 +688,45 @@ def run_history(seed, nb, direct=False, rec=None, undo_rate=0.15):
       last_undo = g.reprs(out.undo)
     yield {'history': copy.deepcopy(history), 'bundle': bundle, 'failed': None, 'engine': e,
            'issues': oracle(e), 'calls': list(rec.calls) if rec is not None else [],
-           'post': rec.postsnap(e) if rec is not None else None}
+           'evals': list(rec.evals) if rec is not None else [],
+           'post': rec.postsnap(e) if rec is not None else None,
+           'touched': sorted(set(a[1] for a in g.reprs(out.stored) if len(a) > 1 and isinstance(a[1], str)))}
     history.append(bundle)
+
+
+# ------------------------------------------------------------------------------------------------
+# Replay and minimisation
+
+def replay_issues(history, bundle):
+  """Applies the bundles of `history` to a fresh document (failing ones are rolled back by the engine and
+  skipped), then `bundle`; returns (error text or None, oracle issues after it)."""
+  g = G()
+  e, _ = g.new_doc()
+  for b in history:
+    try:
+      g.apply(e, copy.deepcopy(b))
+    except Exception:          # pylint: disable=broad-except
+      g.clean(e)
+  failed = None
+  try:
+    g.apply(e, copy.deepcopy(bundle))
+  except Exception as ex:      # pylint: disable=broad-except
+    failed = '%s: %s' % (type(ex).__name__, str(ex)[:200])
+    g.clean(e)
+  return failed, oracle(e)
+
+
+def minimise(history, bundle, kind, budget=120):
+  """Smallest history/bundle (greedy) after which the oracle still reports an issue of this kind."""
+  from harness import histgen
+  def fails_h(h):
+    return any(k == kind for k, _ in replay_issues(h, bundle)[1])
+  if not fails_h(history):
+    return history, bundle
+  h = histgen.shrink_list(history, fails_h, max_steps=budget) if len(history) > 1 else history
+  if len(h) == 1 and fails_h([]):
+    h = []
+  def fails_b(b):
+    return any(k == kind for k, _ in replay_issues(h, b)[1])
+  b = histgen.shrink_list(bundle, fails_b, max_steps=20) if len(bundle) > 1 else bundle
+  return h, b
